@@ -28,7 +28,21 @@ def configs(tier):
                     c = R2[(ci + 2 * pi + 3 * k + 1) % len(R2)] * mult * mult
                     e += 0 if e % 2 else 1
                     c += 0 if c % 2 else 1
-                    out.append({"cellname": name, "mult": mult, "cell": cell, "pbc": list(pbc), "pos": [pts[i] for i in idx],
+                    pos_k = [list(pts[i]) for i in idx]
+                    outside = 0
+                    if k % 3 == 2 and mult == 2:
+                        # some atoms stored slightly outside the cell (by one lattice-point step, at most 0.2 in fractional
+                        # coordinates): the images are still "original + offset.cell" of the atom as stored
+                        inv = np.linalg.inv(np.array(cell, dtype=float))
+                        for a_ in range(len(pos_k)):
+                            if rng.random() < 0.5:
+                                q_ = (np.array(pos_k[a_]) + rng.choice([-1, 1]) * np.eye(3, dtype=int)[int(rng.integers(3))])
+                                f_ = q_ @ inv
+                                if (np.any(f_ < -1e-9) or np.any(f_ > 1 - 1e-9)) and np.all(f_ > -0.2) and np.all(f_ < 1.2) \
+                                        and list(q_) not in pos_k:
+                                    pos_k[a_] = [int(x) for x in q_]
+                                    outside += 1
+                    out.append({"cellname": name, "mult": mult, "cell": cell, "pbc": list(pbc), "pos": pos_k, "outside": outside,
                                 "z": [int(z) for z in rng.choice([6, 8], n)], "ext2x2": int(e), "c2x2": int(c), "k": k,
                                 "grid": pts if len(pts) <= 40 else [pts[i] for i in rng.choice(len(pts), 40, replace=False)]})
     # degenerate cells (zero non-periodic vectors) for the extended system alone
@@ -118,7 +132,7 @@ def execute(cfg):
     if (2 * Kf + 1) ** sum(pbc) * n * len(cfg["grid"]) > 300000:
         return [{"skip": "box too large"}]
     base = {"cell": cell, "pbc": pbc, "pos": pos, "z": z, "grid": cfg["grid"], "Kf": Kf,
-            "cfg": {k: cfg[k] for k in ("cellname", "mult", "k")}, "ext2x2": cfg["ext2x2"], "c2x2": cfg["c2x2"]}
+            "cfg": dict({k: cfg[k] for k in ("cellname", "mult", "k")}, outside=cfg.get("outside", 0)), "ext2x2": cfg["ext2x2"], "c2x2": cfg["c2x2"]}
     recs = []
     at = Atoms(numbers=z, positions=P, cell=C, pbc=pbc)
     # ---- extended system
@@ -186,7 +200,9 @@ def execute(cfg):
                 elif subs[0] is not None:
                     r["res"] = {"kind": "subst", "idx": int(subs[0].index) + 1, "fac": f2.back_int(copies[0]).tolist()}
                 else:
-                    r["res"] = {"kind": "vacancy", "idx": 0, "fac": [0, 0, 0], "n_vac": len(vac)}
+                    # neither a match nor a substitution: it must be reported as (exactly one) vacancy at the searched position
+                    vac_ok = len(vac) == 1 and bool(np.allclose(np.asarray(vac[0].position, dtype=float), np.asarray(Q[0], dtype=float), atol=1e-9))
+                    r["res"] = {"kind": "vacancy" if vac_ok else "nothing", "idx": 0, "fac": [0, 0, 0], "n_vac": len(vac)}
                 r["exact"] = f2.exact
             except Exception as e:
                 r["error"] = "%s: %s" % (type(e).__name__, e)
